@@ -257,11 +257,23 @@ func cmdCheck(args []string) int {
 		body := map[string]interface{}{"obligation": full, "clause": o.Text, "kind": o.Kind, "solver": o.Solver, "answer": o.Status,
 			"seconds": o.Secs, "smt_file": o.SMTFile, "solver_output": trunc(o.Model, 4000)}
 		noInput := true
-		if o.Status == "sat" && !o.ExpectSat {
-			model := getModel(eng, o, outDir, timeout)
-			body["model"] = trunc(model, 20000)
+		haveModel := o.Status == "sat" && !o.ExpectSat
+		if !o.ExpectSat && !*noReplay {
+			// a candidate counterexample: the solver's own model, or one found with the quantified
+			// assumptions dropped; either way it only counts if it replays on the real code
+			o.relaxed = true
+			model, ok := candidateModel(eng, o, outDir, 10)
+			if ok {
+				haveModel = true
+				body["candidate_model"] = trunc(model, 6000)
+			} else {
+				o.relaxed = false
+			}
+		}
+		if haveModel {
 			if !*noReplay {
-				res := replayObligation(eng, o, model, *repo, outDir)
+				res := replayObligation(eng, o, "", *repo, outDir)
+				o.relaxed = false
 				body["replay"] = res
 				if res != nil && res.Reproduced {
 					noInput = false
